@@ -39,10 +39,18 @@ pub static SINK_FAIL: Mutex<Vec<(usize, u64)>> = Mutex::new(Vec::new()); // (sin
 pub struct Sink {
     pub id: usize,
     pub st: Arc<Mutex<SinkState>>,
+    /// > 0: a sink that accepts at most this many bytes per `write` call (pipe/socket style, legal for io::Write)
+    pub chunk: usize,
+    /// a guard-style factory (like `Mutex<W>`): the writer holds a lock for as long as it lives, and the lock
+    /// is poisoned when a panic unwinds through a live writer
+    pub guard: Option<Arc<std::sync::Mutex<()>>>,
 }
-pub struct SinkWriter {
+pub struct SinkWriter<'a> {
     id: usize,
     st: Arc<Mutex<SinkState>>,
+    chunk: usize,
+    pending: Vec<u8>,
+    _guard: Option<std::sync::MutexGuard<'a, ()>>,
 }
 impl Sink {
     pub fn new(id: usize) -> Sink {
@@ -52,23 +60,27 @@ impl Sink {
             s.push(Arc::new(Mutex::new(SinkState { calls: vec![], nwrite: 0 })));
         }
         s[id] = st.clone();
-        Sink { id, st }
+        Sink { id, st, chunk: 0, guard: None }
+    }
+    fn writer(&self) -> SinkWriter<'_> {
+        let g = self.guard.as_ref().map(|m| m.lock().expect("lock poisoned"));
+        SinkWriter { id: self.id, st: self.st.clone(), chunk: self.chunk, pending: vec![], _guard: g }
     }
 }
 impl<'a> MakeWriter<'a> for Sink {
-    type Writer = SinkWriter;
-    fn make_writer(&'a self) -> SinkWriter {
+    type Writer = SinkWriter<'a>;
+    fn make_writer(&'a self) -> SinkWriter<'a> {
         detsim::yield_point("sink:make_writer");
         self.st.lock().unwrap().calls.push(SinkCall::Make { stamp: detsim::stamp(), thread: detsim::current(), level: 0, target: String::new(), with_meta: false });
-        SinkWriter { id: self.id, st: self.st.clone() }
+        self.writer()
     }
-    fn make_writer_for(&'a self, meta: &tracing_core::Metadata<'_>) -> SinkWriter {
+    fn make_writer_for(&'a self, meta: &tracing_core::Metadata<'_>) -> SinkWriter<'a> {
         detsim::yield_point("sink:make_writer_for");
         self.st.lock().unwrap().calls.push(SinkCall::Make { stamp: detsim::stamp(), thread: detsim::current(), level: sites::level_num(meta.level()), target: meta.target().to_string(), with_meta: true });
-        SinkWriter { id: self.id, st: self.st.clone() }
+        self.writer()
     }
 }
-impl SinkWriter {
+impl SinkWriter<'_> {
     fn record(&mut self, buf: &[u8], all: bool) -> bool {
         detsim::yield_point("sink:write");
         let mut st = self.st.lock().unwrap();
@@ -82,15 +94,34 @@ impl SinkWriter {
         !fail
     }
 }
-impl io::Write for SinkWriter {
+impl io::Write for SinkWriter<'_> {
     fn write(&mut self, buf: &[u8]) -> io::Result<usize> {
+        if self.chunk > 0 {
+            // short write: accept a prefix; what this writer accepted in its lifetime is logged as one call when it
+            // is dropped (the caller is responsible for offering the rest again)
+            detsim::yield_point("sink:write");
+            let n = buf.len().min(self.chunk);
+            if n < buf.len() {
+                fault("sink_short_write");
+            }
+            self.pending.extend_from_slice(&buf[..n]);
+            return Ok(n);
+        }
         if self.record(buf, false) {
             Ok(buf.len())
         } else {
             Err(io::Error::from(io::ErrorKind::Other))
         }
     }
-    fn write_all(&mut self, buf: &[u8]) -> io::Result<()> {
+    fn write_all(&mut self, mut buf: &[u8]) -> io::Result<()> {
+        if self.chunk > 0 {
+            // the default provided by std: loop over `write`
+            while !buf.is_empty() {
+                let n = self.write(buf)?;
+                buf = &buf[n..];
+            }
+            return Ok(());
+        }
         if self.record(buf, true) {
             Ok(())
         } else {
@@ -100,6 +131,16 @@ impl io::Write for SinkWriter {
     fn flush(&mut self) -> io::Result<()> {
         self.st.lock().unwrap().calls.push(SinkCall::Flush { stamp: detsim::stamp() });
         Ok(())
+    }
+}
+impl Drop for SinkWriter<'_> {
+    fn drop(&mut self) {
+        if !self.pending.is_empty() {
+            let bytes = std::mem::take(&mut self.pending);
+            let mut st = self.st.lock().unwrap();
+            st.nwrite += 1;
+            st.calls.push(SinkCall::Write { stamp: detsim::stamp(), thread: detsim::current(), bytes, ok: true, all: false });
+        }
     }
 }
 
@@ -118,7 +159,14 @@ fn lvl(n: u64) -> tracing_core::Level {
 /// Build a writer expression. `or_else`'s left operand must be a level/filter wrapper (an OptionalWriter).
 pub fn build_writer(v: &Value) -> BoxMakeWriter {
     match v["k"].as_str().unwrap_or("") {
-        "sink" => BoxMakeWriter::new(Sink::new(v["id"].as_u64().unwrap_or(0) as usize)),
+        "sink" => {
+            let mut sk = Sink::new(v["id"].as_u64().unwrap_or(0) as usize);
+            sk.chunk = v["short"].as_u64().unwrap_or(0) as usize;
+            if v["guard"].as_bool().unwrap_or(false) {
+                sk.guard = Some(Arc::new(std::sync::Mutex::new(())));
+            }
+            BoxMakeWriter::new(sk)
+        }
         "max" => BoxMakeWriter::new(build_writer(&v["c"]).with_max_level(lvl(v["l"].as_u64().unwrap_or(5)))),
         "min" => BoxMakeWriter::new(build_writer(&v["c"]).with_min_level(lvl(v["l"].as_u64().unwrap_or(1)))),
         "filter" => {
@@ -221,6 +269,34 @@ fn gen_writer(rng: &mut Rng, depth: u32, next_sink: &mut u64) -> Value {
             let c = gen_writer(rng, depth + 1, next_sink);
             let a = cond(rng, c);
             json!({"k": "or_else", "a": a, "b": gen_writer(rng, depth + 1, next_sink)})
+        }
+    }
+}
+
+/// Sink variants: a fifth of the sinks accept only short writes; under a seeded total order (never under seeded
+/// schedules, where a held std lock would really block) a quarter of the sinks are guard-style factories.
+fn decorate_sinks(v: &mut Value, rng: &mut Rng, sync: bool) {
+    match v["k"].as_str().unwrap_or("") {
+        "sink" => {
+            if rng.chance(1, 5) {
+                v["short"] = json!(*rng.pick(&[1u64, 7, 16, 40]));
+            }
+            if !sync && rng.chance(1, 4) {
+                v["guard"] = json!(true);
+            }
+        }
+        "and" | "or_else" => {
+            let mut a = v["a"].take();
+            let mut b = v["b"].take();
+            decorate_sinks(&mut a, rng, sync);
+            decorate_sinks(&mut b, rng, sync);
+            v["a"] = a;
+            v["b"] = b;
+        }
+        _ => {
+            let mut c = v["c"].take();
+            decorate_sinks(&mut c, rng, sync);
+            v["c"] = c;
         }
     }
 }
@@ -386,7 +462,7 @@ impl Engine for FmtEngine {
         m
     }
     fn rule(&self, _p: &str) -> String {
-        "configuration = formatter (full/compact/pretty/json) x options (target, level, thread id/name, file/line, ansi, virtual-clock timer or none, span events none/new+close/active/full, json flatten/current_span/span_list) x writer expression of depth <=3 over <=5 recording sinks (with_max_level, with_min_level, with_filter, and, or_else); 1-8 threads emit <=12 events each inside span nestings; schedules interleave threads at the sinks' make_writer_for/write calls; faults: a field whose Debug panics (caught), a failing write in one Tee branch; non-trivial = >=2 threads' records interleaved at a sink or a combinator routed records of the run to different sink sets, and >=1 record inside a span nesting; distinct = distinct (plan, schedule digest)".into()
+        "configuration = formatter (full/compact/pretty/json) x options (target, level, thread id/name, file/line, ansi, virtual-clock timer or none, span events none/new+close/active/full, json flatten/current_span/span_list) x writer expression of depth <=3 over <=5 recording sinks (with_max_level, with_min_level, with_filter, and, or_else), a fifth of the sinks accepting only short writes (1-40 bytes per call) and, under seeded total orders, a quarter being guard-style factories whose lock a panic unwinding through a live writer poisons; 1-8 threads emit <=12 events each inside span nestings; schedules interleave threads at the sinks' make_writer_for/write calls; faults: a field whose Debug panics (caught), a failing write in one Tee branch, short writes; non-trivial = >=2 threads' records interleaved at a sink or a combinator routed records of the run to different sink sets, and >=1 record inside a span nesting; distinct = distinct (plan, schedule digest)".into()
     }
     fn components(&self) -> Value {
         json!({"real": ["tracing_subscriber::fmt::Subscriber (on_event/on_new_span/... with thread-local buffer)", "format::{Full, Compact, Pretty, Json}", "writer combinators WithMaxLevel/WithMinLevel/WithFilter/Tee/OrElse/BoxMakeWriter", "Registry"], "stub": ["sinks (recording MakeWriter/Write)", "timer (virtual clock)"]})
@@ -404,6 +480,8 @@ impl Engine for FmtEngine {
         let mut next_sink = 0;
         let writer = gen_writer(&mut rng, 0, &mut next_sink);
         let sync = rng.chance(1, 2);
+        let mut writer = writer;
+        decorate_sinks(&mut writer, &mut rng, sync);
         let nthreads = if sync { rng.range(1, 8) } else { rng.range(1, 3) };
         let aborts = g.mode == "probe:F8" || !finding_open("F8");
         let mut steps = vec![];
@@ -452,6 +530,8 @@ impl Engine for FmtEngine {
         let nthreads = cfg["threads"].as_u64().unwrap_or(1).max(1) as usize;
         let steps: Vec<Value> = plan["steps"].as_array().cloned().unwrap_or_default();
         std::panic::set_hook(Box::new(|_| {}));
+        // span timings (time.busy / time.idle in close records) read the simulated clock through hook H8
+        WALL_ENABLED.store(true, Ordering::SeqCst);
         for f in plan["faults"].as_array().cloned().unwrap_or_default() {
             if f["kind"] == "sink_error" {
                 SINK_FAIL.lock().unwrap().push((f["sink"].as_u64().unwrap_or(0) as usize, f["nth"].as_u64().unwrap_or(1)));
